@@ -17,7 +17,8 @@
     - `spec_*` return the uses in the order in which they occur, each with the declaring identifier it resolves
       to, or None (not found).
     The current file number [f] is attached to every range (a range belongs to the file being read).
-    Field accesses `v.f` (which need types) are outside this resolver (fragment predicate [frag_*]). *)
+    Field accesses `v.f` (which need types) and includes that are not at the top level of a file are outside
+    this resolver (fragment predicate [frag_*]). *)
 From Coq Require Import List NArith Bool.
 From TG.Model Require Import CoreAst.
 Import ListNotations.
@@ -237,7 +238,7 @@ Fixpoint spec_stmt (f : N) (e : env) (x : stmt) {struct x} : list ev * env :=
   let mcrefs := fix go (e : env) (l : list classref) : list ev :=
                   match l with [] => [] | c :: r => spec_mcref f e c ++ go e r end in
   match x with
-  | SInclude _ _ => ([], e)                       (* outside the fragment *)
+  | SInclude _ _ => ([], e)                       (* not at the top level of a file: outside the fragment *)
   | SAssert c m => (spec_value f e m ++ spec_value f e c, e)
   | SClass i targs ps b =>
     let loc := at_file f (i_rng i) in
@@ -289,9 +290,39 @@ Fixpoint spec_stmts (f : N) (e : env) (l : list stmt) : list ev * env :=
   | y :: r => let '(ev1, e1) := spec_stmt f e y in let '(ev2, e2) := spec_stmts f e1 r in (ev1 ++ ev2, e2)
   end.
 
-(** the uses of a single-file workspace, in order *)
-Definition spec_uses (w : workspace) : list ev :=
-  match ws_files w with root :: _ => fst (spec_stmts 0 env0 root) | [] => [] end.
+(** Several files.  An `include` at the top level of a file stands for the statements of the included file, the
+    FIRST time the file is reached (a file that has been read before is skipped; the root file counts as read).
+    [flat_file files k f ix l]: the statements [l] of file [f] with the includes expanded, each statement with the
+    number of the file it is written in; [ix] = the files read so far; [k] bounds the nesting of includes. *)
+Fixpoint flat_list (inc : N -> list N -> list (N * stmt) * list N) (f : N) (ix : list N) (l : list stmt)
+  : list (N * stmt) * list N :=
+  match l with
+  | [] => ([], ix)
+  | SInclude _ (Some g) :: r =>
+    if existsb (N.eqb g) ix then flat_list inc f ix r
+    else let '(a, ix1) := inc g (g :: ix) in
+         let '(b, ix2) := flat_list inc f ix1 r in (a ++ b, ix2)
+  | SInclude _ None :: r => flat_list inc f ix r
+  | x :: r => let '(b, ix2) := flat_list inc f ix r in ((f, x) :: b, ix2)
+  end.
+Definition file_body (files : list (list stmt)) (g : N) : list stmt :=
+  match nth_error files (N.to_nat g) with Some b => b | None => [] end.
+Fixpoint flat_file (files : list (list stmt)) (k : nat) (f : N) (ix : list N) (l : list stmt)
+  : list (N * stmt) * list N :=
+  match k with
+  | O => ([], ix)
+  | S k' => flat_list (fun g ix' => flat_file files k' g ix' (file_body files g)) f ix l
+  end.
+Fixpoint spec_flat (e : env) (l : list (N * stmt)) : list ev * env :=
+  match l with
+  | [] => ([], e)
+  | (f, x) :: r => let '(ev1, e1) := spec_stmt f e x in let '(ev2, e2) := spec_flat e1 r in (ev1 ++ ev2, e2)
+  end.
+Definition ws_flat (w : workspace) : list (N * stmt) :=
+  match ws_files w with root :: _ => fst (flat_file (ws_files w) (ws_fuel w) 0 [0] root) | [] => [] end.
+
+(** the uses of a workspace, in order *)
+Definition spec_uses (w : workspace) : list ev := fst (spec_flat env0 (ws_flat w)).
 
 Definition resolved (e : ev) : bool := match snd e with Some _ => true | None => false end.
 (** every used name is in scope at its use *)
@@ -365,5 +396,4 @@ Fixpoint frag_stmt (x : stmt) : bool :=
     match targs with Some l => forallb frag_targ l | None => true end
     && forallb frag_classref ps && stmts b
   end.
-Definition frag_ws (w : workspace) : bool :=
-  match ws_files w with [root] => forallb frag_stmt root | _ => false end.
+Definition frag_ws (w : workspace) : bool := forallb (fun p => frag_stmt (snd p)) (ws_flat w).
